@@ -15,9 +15,12 @@ Oracle (DESIGN.md C18):
 """
 from __future__ import annotations
 
+import collections
+import collections.abc
 import dataclasses
 import enum
 import itertools
+import types
 import typing
 from decimal import Decimal
 
@@ -634,6 +637,9 @@ def check_case(ctx: runner.Ctx, case):  # noqa: C901, PLR0912, PLR0915
             if len(d) == 1:
                 cands.append(d[0])
             cands.append({x: 1 for x in d})
+            cands.append(collections.OrderedDict((x, 1) for x in d))
+            cands.append(types.MappingProxyType({x: 1 for x in d}))
+            cands.append(collections.ChainMap({x: 1 for x in d}))
         if isinstance(d, int) and not isinstance(d, bool):
             cands.extend([d + 1, -d - 1, float(d), str(d), d + 2 ** 20])
     if kind == "flag_exact":
@@ -753,7 +759,8 @@ def reference(cls, kind, prov, strict, named, cand, mp, usable, spec):  # noqa: 
             return "reject", None
         if isinstance(cand, str):
             return "unspecified", None
-        if isinstance(cand, dict):
+        if isinstance(cand, collections.abc.Mapping):
+            # "the loader takes any iterable excluding str and Mapping" under strict coercion: every Mapping, not only dict
             return ("reject", None) if strict else ("unspecified", None)
         if isinstance(cand, (list, tuple, set, frozenset)):
             items = list(cand)
